@@ -1197,6 +1197,9 @@ def enable_line_mode(modules) -> int:
             s = t.sched
             if s.aborting or not getattr(s, "line_mode", False):
                 return None
+            lf = s.line_files
+            if lf is not None and code.co_filename not in lf:
+                return None  # registered by an earlier case of this process, not part of this run
             if getattr(_tl, "in_line", False):
                 return None
             _tl.in_line = True
